@@ -552,3 +552,70 @@ _c11_base3 = contracts
 
 def contracts():
     return _c11_base3() + [revalidation_contract()]
+
+
+# ---------------------------------------------------------------------------------------------
+# Parameter.__init__ — what a declaration leaves unspecified stays `Undefined` (so it can be inherited)
+# ---------------------------------------------------------------------------------------------
+def parameter_init_contract():
+    """`Parameter.__init__(default, doc, label, precedence, instantiate, constant, readonly,
+    pickle_default_value, allow_None, per_instance, allow_refs, nested_refs)` with every argument
+    arbitrary (given or `Undefined`): each slot holds exactly what was passed — an attribute that is
+    NOT specified stays `Undefined`, whatever else was specified — with the three documented
+    exceptions: `constant` is True when readonly or constant is True; `instantiate` and `allow_None`
+    follow `_set_instantiate` / `_set_allow_None` (verified on their own)."""
+    ARGS = ["doc", "label", "precedence", "instantiate", "constant", "readonly", "pickle_default_value",
+            "allow_None", "per_instance", "allow_refs", "nested_refs"]
+
+    def configure(I):
+        def set_inst(I, st, fv, args, kwargs, ctx):
+            st.ghost["set_instantiate"] = st.ghost.get("set_instantiate", []) + [I.term(args[0])]
+            return [(st, Conc(None))]
+        I.contracts["Parameter._set_instantiate"] = set_inst
+
+        def set_an(I, st, fv, args, kwargs, ctx):
+            st.ghost["set_allow_None"] = st.ghost.get("set_allow_None", []) + [I.term(args[0])]
+            return [(st, Conc(None))]
+        I.contracts["Parameter._set_allow_None"] = set_an
+        I.lib["deco:_deprecate_positional_args"] = lambda I, st, fv, args, kwargs, ctx: None
+
+    def setup(I, st):
+        U = I.U
+        self = I.alloc_obj(st, "Parameter", lazy=False, label="self")
+        kw = {a: Sym(U.fresh(a)) for a in ARGS}
+        default = Sym(U.fresh("default"))
+        found = I.src.find_method("Parameter", "__init__")
+        fv = I.bound_method(self, found)
+        return fv, [default], kw, {"self": self, "kw": {a: v.t for a, v in kw.items()}, "default": default.t, "symbols": {}}
+
+    def post(I, info, st, oc):
+        U = I.U
+        if isinstance(oc, Raise):
+            return [("does-not-raise", z3.BoolVal(False))]
+        f = st.heap[info["self"].oid].fields
+        kw = info["kw"]
+        out = []
+        slot_of = {"label": "_label"}
+        for a in ARGS:
+            if a in ("instantiate", "allow_None", "constant"):
+                continue
+            s_ = slot_of.get(a, a)
+            out.append(("slot %s holds exactly what was passed (Undefined when unspecified)" % s_,
+                        I.term(f[s_]) == kw[a] if s_ in f else z3.BoolVal(False)))
+        out.append(("slot default holds exactly what was passed", I.term(f["default"]) == info["default"] if "default" in f else z3.BoolVal(False)))
+        forced = z3.Or(kw["constant"] == U.TRUE, kw["readonly"] == U.TRUE)
+        out.append(("constant: True when constant or readonly is True, else exactly what was passed (Undefined when unspecified — whatever readonly is)",
+                    I.term(f["constant"]) == z3.If(forced, U.TRUE, kw["constant"]) if "constant" in f else z3.BoolVal(False)))
+        si, sa = st.ghost.get("set_instantiate", []), st.ghost.get("set_allow_None", [])
+        out.append(("instantiate / allow_None are computed from exactly what was passed",
+                    z3.And(z3.BoolVal(len(si) == 1 and len(sa) == 1), si[0] == kw["instantiate"] if si else z3.BoolVal(False),
+                           sa[0] == kw["allow_None"] if sa else z3.BoolVal(False))))
+        return out
+    return FunctionContract("%s:Parameter.__init__" % MOD, PROP, setup, post, configure=configure, name="Parameter.__init__[arbitrary declaration]")
+
+
+_c11_base4 = contracts
+
+
+def contracts():
+    return _c11_base4() + [parameter_init_contract()]
